@@ -61,7 +61,10 @@ static inline void section(int nested) {
   int a = CMM_LOAD_SHARED(A);
   rt_assert(v == 7, "reader sees the object intact (never reclaimed under it)");
   rt_assert(!(b == 1 && a == 0), "a reader that sees a post-grace-period store also sees every pre-grace-period store");
-  rt_cover(b == 1, "reader ran after the grace period"); rt_cover(a == 0, "reader ran before the updater");
+#if FLAVOR != 3
+  rt_cover(b == 1, "reader ran after the grace period");
+#endif
+  rt_cover(a == 0, "reader ran before the updater");
   rt_cover(a == 1 && b == 0, "reader section overlaps the grace period");
 #if FLAVOR != 3
   cs_end();
